@@ -91,7 +91,7 @@ TT == [
   \* character arrays
   c4 |-> Arr(4, "char"), c0 |-> Arr(0, "char"), c3 |-> Arr(3, "char"), uc4 |-> Arr(4, "uchar"),
   h4 |-> Arr(4, "c16"), h0 |-> Arr(0, "c16"), U4 |-> Arr(4, "c32"), w4 |-> Arr(4, "wchar"), w0 |-> Arr(0, "wchar"),
-  c24 |-> Arr(2, "c4"), c04 |-> Arr(0, "c4"),
+  c24 |-> Arr(2, "c4"), w2 |-> Arr(2, "wchar"), h3 |-> Arr(3, "c16"),
   \* structs
   sii  |-> St(<<M("a", "int"), M("b", "int")>>),
   scl  |-> St(<<M("a", "char"), M("b", "long"), M("c", "short")>>),
@@ -119,7 +119,7 @@ TT == [
   sfs  |-> St(<<M("n", "char"), M("f", "as0")>>),
   sfc  |-> St(<<M("n", "int"), M("f", "c0")>>),
   sc4  |-> St(<<M("a", "c4"), M("b", "int")>>),
-  sw   |-> St(<<M("a", "char"), M("w", "w4"), M("h", "h4")>>),
+  sw   |-> St(<<M("a", "char"), M("w", "w2"), M("h", "h3")>>),
   sp   |-> St(<<M("p", "ptr"), M("a", "int"), M("q", "ptr")>>)
 ]
 
